@@ -60,6 +60,8 @@ type Contract struct {
 	Invariants []Clause // closure invariants: hold before and after every run of a function literal
 }
 
+var reWhere = regexp.MustCompile(` where arg(\d+) is "([^"]*)" `)
+
 var reFuncHdr = regexp.MustCompile(`^(func|iface|closure)\s+(\([^)]*\)\s*)?([^\s(]+)\s*(\([^)]*\))?\s*(\([^)]*\))?\s*$`)
 
 func splitNames(s string) []string {
@@ -111,6 +113,9 @@ type AtRule struct {
 	Site   int // -1: every site
 	C      Clause
 	Set    string // ghost update after the call: "at call X set g = expr"
+	// optional site filter `where argN is "literal"`: only call sites whose N-th argument is that string constant
+	WhereArg int
+	WhereLit string
 }
 
 // ContractSet holds everything parsed from contract, trusted and spec files.
@@ -323,6 +328,12 @@ func (cs *ContractSet) parseContractLines(file, pkgPath string, lines []string, 
 			if cur == nil {
 				return errf(i, "at outside func")
 			}
+			whereArg, whereLit := -1, ""
+			if m := reWhere.FindStringSubmatch(rest); m != nil {
+				whereArg, _ = strconv.Atoi(m[1])
+				whereLit = m[2]
+				rest = strings.Replace(rest, m[0], " ", 1)
+			}
 			f := strings.Fields(rest)
 			k := strings.Index(rest, " assert ")
 			isSet := false
@@ -334,7 +345,7 @@ func (cs *ContractSet) parseContractLines(file, pkgPath string, lines []string, 
 			if len(f) < 4 || k < 0 || (f[0] != "call" && f[0] != "effect") {
 				return errf(i, "expected: at call|effect <target> assert <clause> | set <ghost> = <expr>")
 			}
-			r := AtRule{Kind: f[0], Target: f[1], Site: -1}
+			r := AtRule{Kind: f[0], Target: f[1], Site: -1, WhereArg: whereArg, WhereLit: whereLit}
 			if isSet {
 				body := rest[k+len(" set "):]
 				eq := strings.Index(body, "=")
